@@ -146,6 +146,71 @@ class Tx:
                 self.unparsed.append({'item': cname + ' attributes', 'why': str(e)})
         return res, order
 
+    # ------------------------------------------------------------------ model constructors
+    def ctor_rules(self):
+        """TwoPort<N>Model.__init__(X11, X12, X21, X22, s1, s2): how each scalar argument is defaulted.
+        Returns {N: {'matrix_route': bool, 'entries': [rule x4], 'sources': [rule x2]}} with rule in
+        'ifNone' (`'X11' if X11 is None else X11`, `if s is None: s = 0`) or 'ifFalsy' (`X11 or 'X11'`)."""
+        res = {}
+        for rep in MREPS:
+            cname = 'TwoPort%sModel' % rep
+            try:
+                init = self.cls[cname]['__init__']
+                pn = [a.arg for a in init.args.args]
+                ents = pn[1:5]
+                if ents != ['%s%s' % (rep, ij) for ij in ('11', '12', '21', '22')] or pn[5:7] != list(OFFSET[rep]):
+                    raise Unparsed('parameter names %s' % pn)
+                top = [st for st in init.body if isinstance(st, ast.If)]
+                want_test = '%s is not None and %s is None and %s is None and %s is None' % tuple(ents)
+                first = top[0]
+                if ast.unparse(first.test).replace('(', '').replace(')', '') != want_test or [ast.unparse(x) for x in first.body] != ['%s = %s' % (rep, ents[0])]:
+                    raise Unparsed('matrix-argument route: %s' % ast.unparse(first.test)[:80])
+                rules = {}
+                for st in first.orelse:
+                    if not (isinstance(st, ast.Assign) and isinstance(st.targets[0], ast.Name)):
+                        raise Unparsed('else branch statement %s' % ast.unparse(st)[:60])
+                    tgt = st.targets[0].id
+                    v = st.value
+                    if tgt in ents:
+                        if (isinstance(v, ast.IfExp) and ast.unparse(v.test) == '%s is None' % tgt
+                                and isinstance(v.body, ast.Constant) and v.body.value == tgt and ast.unparse(v.orelse) == tgt):
+                            rules[tgt] = 'ifNone'
+                        elif (isinstance(v, ast.BoolOp) and isinstance(v.op, ast.Or) and len(v.values) == 2
+                              and ast.unparse(v.values[0]) == tgt and isinstance(v.values[1], ast.Constant)
+                              and v.values[1].value == tgt):
+                            rules[tgt] = 'ifFalsy'
+                        else:
+                            raise Unparsed('defaulting of %s: %s' % (tgt, ast.unparse(v)[:60]))
+                    elif tgt == rep:
+                        want = '%sMatrix(((%s, %s), (%s, %s)))' % ((rep,) + tuple(ents))
+                        if ast.unparse(v) != want:
+                            raise Unparsed('matrix assembly %s' % ast.unparse(v)[:80])
+                    else:
+                        raise Unparsed('else branch assigns %s' % tgt)
+                if sorted(rules) != sorted(ents):
+                    raise Unparsed('entries defaulted: %s' % sorted(rules))
+                srules = []
+                for sname in OFFSET[rep]:
+                    hit = None
+                    for st in top[1:]:
+                        t = ast.unparse(st.test)
+                        if len(st.body) == 1 and isinstance(st.body[0], ast.Assign) and ast.unparse(st.body[0].targets[0]) == sname \
+                                and not st.orelse:
+                            val = ast.unparse(st.body[0].value)
+                            if not (val.startswith('LaplaceDomain') and val.endswith('(0)')):
+                                continue
+                            if t == '%s is None' % sname:
+                                hit = 'ifNone'
+                            elif t == 'not %s' % sname:
+                                hit = 'ifFalsy'
+                    if hit is None:
+                        raise Unparsed('default of source %s' % sname)
+                    srules.append(hit)
+                res[rep] = {'entries': [rules[e] for e in ents], 'sources': srules, 'line': init.lineno}
+            except (Unparsed, KeyError, IndexError) as e:
+                self.unparsed.append({'item': cname + '.__init__ defaulting', 'why': str(e)})
+        return res
+
     # ------------------------------------------------------------------ MRO lookup on the network classes
     def lookup(self, n, attr):
         for cname in ('TwoPort%sModel' % n, 'TwoPort', 'TwoPortMixin'):
@@ -533,6 +598,14 @@ def generate(repo='/repo'):
     parts.append('/-- `self._sources = Vector((…))` in each model constructor (= its 6th, 7th parameters) -/\n')
     parts.append('def modelSources : List (String × List String) :=\n  [')
     parts.append(', '.join('("%s", [%s])' % (r, ', '.join('"%s"' % x for x in order[r])) for r in MREPS if r in order))
+    parts.append(']\n\n')
+    cr = tx.ctor_rules()
+    parts.append('/-- TwoPort?Model.__init__ given four scalar entries and two sources: how each argument is defaulted.\n'
+                 '    `ifNone`: replaced by its default (free symbol / zero source) only when it is None;\n'
+                 '    `ifFalsy`: replaced whenever it is falsy (so a numeric ZERO would be lost) -/\n')
+    parts.append('def ctorRules : List (String × List ArgRule × List ArgRule) :=\n  [')
+    parts.append(',\n   '.join('("%s", [%s], [%s])' % (r, ', '.join('.' + x for x in cr[r]['entries']),
+                                                      ', '.join('.' + x for x in cr[r]['sources'])) for r in MREPS if r in cr))
     parts.append(']\n\n')
     # 3. parameter dispatch
     for p in REPS:
